@@ -308,6 +308,15 @@ func checkIdempotency(o *Observed) []Finding {
 				out = append(out, Finding{"ik-successes-differ:" + r.Op.Kind, fmt.Sprintf("key %q: attempt %d returned tx %s, attempt %d returned tx %s", ik, first.Op.Attempt, first.Res.TxID, r.Op.Attempt, r.Res.TxID)})
 			}
 			li := byIK[ik]
+			if len(li) > 0 {
+				// the single effect under the key is of one kind; a success reported to a write of another kind acknowledges
+				// something that was never written
+				want := map[string]string{"script": "NEW_TRANSACTION", "postings": "NEW_TRANSACTION", "revert": "REVERTED_TRANSACTION", "savemeta": "SET_METADATA", "delmeta": "DELETE_METADATA"}[r.Op.Kind]
+				if got := o.Logs[li[0]].Type.String(); want != "" && got != want && len(li) == 1 {
+					out = append(out, Finding{"ik-success-for-another-kind-of-write:" + r.Op.Kind, fmt.Sprintf("key %q: a %s request was answered with success; the only entry under the key is a %s", ik, r.Op.Kind, got)})
+					continue
+				}
+			}
 			if len(li) == 0 {
 				out = append(out, Finding{"ik-success-without-effect:" + r.Op.Kind, fmt.Sprintf("key %q: success returned but no log entry carries the key", ik)})
 			} else if len(o.CommitSteps) > li[0] && r.RetStep >= 0 && o.CommitSteps[li[0]] > r.RetStep {
@@ -628,7 +637,8 @@ func checkEvents(o *Observed) []Finding {
 		switch m.Type {
 		case "COMMITTED_TRANSACTIONS":
 			var p struct {
-				Transactions []json.RawMessage `json:"transactions"`
+				Transactions    []json.RawMessage            `json:"transactions"`
+				AccountMetadata map[string]map[string]string `json:"accountMetadata"`
 			}
 			_ = json.Unmarshal(m.Payload, &p)
 			for _, raw := range p.Transactions {
@@ -654,6 +664,27 @@ func checkEvents(o *Observed) []Finding {
 				published[i] = true
 				if d := sameTx(txJ(&tx), logTx(o.Logs[i])); d != "" {
 					out = append(out, Finding{"event-content-differs:" + m.Type, d})
+				}
+				// the account metadata the script wrote is part of the entry, hence of the event
+				if d, ok := o.Logs[i].Data.(ledger.NewTransactionLogPayload); ok && len(p.Transactions) == 1 {
+					want := map[string]map[string]string{}
+					for a, md := range d.AccountMetadata {
+						if len(md) > 0 {
+							want[a] = map[string]string{}
+							for k, v := range md {
+								want[a][k] = v
+							}
+						}
+					}
+					got := map[string]map[string]string{}
+					for a, md := range p.AccountMetadata {
+						if len(md) > 0 {
+							got[a] = md
+						}
+					}
+					if !reflect.DeepEqual(want, got) {
+						out = append(out, Finding{"event-content-differs:" + m.Type + ":account-metadata", fmt.Sprintf("transaction %s: the entry carries account metadata %v, the event %v", tx.ID, want, got)})
+					}
 				}
 			}
 		case "REVERTED_TRANSACTION":
